@@ -23,7 +23,8 @@ BUILD = os.path.join(VERIF, "build") if REPO == "/repo" else os.path.join(
     VERIF, "build", "alt-" + hashlib.sha1(REPO.encode()).hexdigest()[:8])
 SPEC = os.path.join(VERIF, "spec")
 HARNESS = os.path.join(VERIF, "harness")
-EVID = os.path.join(VERIF, "evidence")
+# evidence of runs against a scratch copy (seeded changes) never overwrites the evidence of /repo itself
+EVID = os.path.join(VERIF, "evidence") if REPO == "/repo" else os.path.join(BUILD, "evidence")
 TLAJAR = "/opt/veriftools/tla/tla2tools.jar:/opt/veriftools/tla/CommunityModules-deps.jar"
 NCPU = os.cpu_count() or 4
 GUARD = "H3_VERIF"
